@@ -31,6 +31,22 @@ def gen_cfg(path, mode, maxlen, use, first=None):
     core.write_cfg(path, lines)
 
 
+MC_BOUNDS = {"quick": dict(MaxDepth=2, MaxMembers=2, MaxAnn=1, MaxBatches=1),
+             "thorough": dict(MaxDepth=2, MaxMembers=2, MaxAnn=2, MaxBatches=2)}
+
+
+def mc_cfg(path, mode, tier):
+    """MC: protocol properties on the content-hiding quotient (VIEW), full 34-call alphabet."""
+    b = MC_BOUNDS[tier]
+    lines = ["SPECIFICATION Spec", "CONSTANTS", '  Mode = "%s"' % mode,
+             "  FixedTexts <- %s" % ("FixedA" if mode == "binlst" else "FixedNone"),
+             "  MaxLen = 0", "  KeepHist = FALSE", "  Use <- Full"]
+    lines += ["  %s = %d" % kv for kv in b.items()]
+    lines += ["VIEW View", "INVARIANTS TypeOK NamesOnlyInStructs",
+              "PROPERTIES Sticky ErrSet FinishOk AppendOnly", "CHECK_DEADLOCK FALSE"]
+    core.write_cfg(path, lines)
+
+
 def gen_programs(wd, mode, maxlen, use="Reduced", workers=4):
     """All maximal programs (leaves of the history tree) for one mode."""
     d = wd.sub("gen-" + mode)
